@@ -96,7 +96,7 @@ def gen_ops(st):
             if size + o >= 0:
                 out.append("s %d E %d" % (i, o))
         for g in (0, 1, 2):
-            if g != name and g not in live:
+            if g not in live or (g == name and name is not None):   # including a rename of the file onto its own name (a no-op)
                 out.append("m %d %s" % (i, NAMES[g]))
         out.append("u %d" % i)
     return out
